@@ -78,7 +78,6 @@ func (c *Conn) handleDatagram(now time.Time, dgram *datagram) (handled bool) {
 			// Invalid data at the end of a datagram is ignored.
 			return false
 		}
-		c.idleHandlePacketReceived(now)
 		buf = buf[n:]
 	}
 	return true
@@ -125,6 +124,7 @@ func (c *Conn) handleLongHeader(now time.Time, dgram *datagram, ptype packetType
 	c.connIDState.handlePacket(c, p.ptype, p.srcConnID)
 	ackEliciting := c.handleFrames(now, dgram, ptype, space, p.payload)
 	c.acks[space].receive(now, space, p.num, ackEliciting, dgram.ecn)
+	c.idleHandlePacketReceived(now)
 	if p.ptype == packetTypeHandshake && c.side == serverSide {
 		c.loss.validateClientAddress()
 
@@ -175,6 +175,7 @@ func (c *Conn) handle1RTT(now time.Time, dgram *datagram, buf []byte) int {
 	}
 	ackEliciting := c.handleFrames(now, dgram, packetType1RTT, appDataSpace, p.payload)
 	c.acks[appDataSpace].receive(now, appDataSpace, p.num, ackEliciting, dgram.ecn)
+	c.idleHandlePacketReceived(now)
 	return len(buf)
 }
 
